@@ -648,7 +648,8 @@ theorem gff_append_directive_inv (g g' : Gff) (d text : Str) (hinv : g.idx = gff
   unfold gffAppendDirective at h
   split at h
   · cases h
-  · injection h with h
+  · simp only [hnf, Bool.false_eq_true, if_false] at h
+    injection h with h
     subst h
     rw [hinv] at hnf ⊢
     unfold gffIndex at hnf ⊢
